@@ -180,7 +180,9 @@ void log_vmessage(struct log_type *type, enum log_severity sev, const char *form
     va_copy(args_2, args);
     res = vsnprintf(buff, sizeof(buff), format, args);
     memset(&cv, 0, sizeof(cv));
-    if (res < 0) {
+    if (res < 0 || (size_t)res >= sizeof(buff)) {
+        /* It did not fit (or we cannot tell): format it into a buffer
+         * that grows as needed. */
         char_vector_append_vprintf(&cv, format, args_2);
         message = cv.vec;
     } else
